@@ -273,7 +273,11 @@ class Runner:
             with open(script, "w") as f:
                 f.write(self.script_text())
             self.prepare_files()
-            sim.spawn_shell([script], env_extra=self.shell_env())
+            if self.sc.get("dash_c"):
+                # one command line given with -c (words may span several lines inside quotes)
+                sim.spawn_shell(["-c", self.sc["lines"][0]["text"]], env_extra=self.shell_env())
+            else:
+                sim.spawn_shell([script], env_extra=self.shell_env())
             ev = sim.shell_event()
             if ev[0] != "msg" or not ev[1].startswith("hello"):
                 raise HarnessError("shell did not greet: %r" % (ev,))
@@ -894,10 +898,30 @@ class Runner:
             where, ",".join(alive) or "-", ",".join(free) or "-"))
 
     # ---------------------------------------------------------------- micro-steps
+    def peer_is_shell(self, st, fd):
+        """the other end of this descriptor is read/written by the (unparked) shell itself"""
+        o = st.objs.get(fd)
+        if not isinstance(o, Pipe):
+            return False
+        G = st.group
+        return o is st.hs or o is G.cap_out or o is G.cap_err
+
     def do_step(self, st, step):
         sim = self.sim
         pup = st.pup
         r = st.role
+        if step in ("write", "twrite", "fwd", "read", "readk"):
+            # The shell reads its capture pipes / writes a here-string while the puppet moves. One step
+            # moves at most one pipe buffer: starting from the settled state (pipe empty for a capture,
+            # full or completely written for a here-string) the outcome then does not depend on how fast
+            # the shell drains or refills.
+            fd = 0 if step in ("read", "readk") else (r["writes"][st.wi]["fd"] if step == "twrite" else 1)
+            if self.peer_is_shell(st, fd):
+                r = dict(r)
+                r["chunk"] = min(r.get("chunk", 4096), PIPE_CAP)
+                r["rchunk"] = min(r.get("rchunk", 4096), PIPE_CAP)
+                if step == "fwd" and len(st.buf) > PIPE_CAP:
+                    raise HarnessError("forward buffer larger than a pipe buffer towards the shell")
         if step == "write":
             chunk = r.get("chunk", 4096)
             n = min(chunk, r["n"] - st.written)
